@@ -74,6 +74,10 @@ def step (st : DState) (line : String) : DState × String × String :=
     -- the built binary (own argument handling, -p, error clean-up): containment is what C17 states for
     -- every input (extract_contained), so that is what the model answers
     else if fam == "extractcli" then (st, "outside=same", "outside=same")
+    -- C13 on inputs the header model declines (non-canonical but accepted dag-cbor headers): for a CARv1 or
+    -- an index-less CARv2, Inspect(true) succeeds iff the hash-verifying scan ends cleanly, with the same
+    -- roots and block count — `inspect_iff_scan`, which holds for every byte string
+    else if fam == "inspagree" then (st, "agree=1", "agree=1")
     else if fam == "cli" then let r := famCli H kv; (st, r.1, r.2)
     else if fam == "root" then
       -- C18: the CID `car root` prints = the single root in the header = the root the engine built
